@@ -65,9 +65,11 @@ Definition in_place_of (o : mop) : bool :=
 (* "does the current program contain a statement of kind k": when the current program is still
    source-level, `contains' can be read on the text (any nesting level) or on the inlined circuit;
    the two differ only for statements in code that never runs (zero-iteration loops, untaken
-   compile-time branches, uncalled subroutines).  The machine answers only when they coincide. *)
+   compile-time branches, uncalled subroutines).  The machine answers only when they coincide -- and
+   always once the module has an unrolled view, because the flat program is then the current one. *)
 Definition has_answer (k : kind) (m : mspec) (f : list stmt) : mout :=
-  if Bool.eqb (has_kind k f) (has_kind k (sp_prog m)) then OutB (has_kind k f) else OutAnyB.
+  if sp_unrolled m then OutB (has_kind k f)          (* an unrolled view exists: the flat program is the current one *)
+  else if Bool.eqb (has_kind k f) (has_kind k (sp_prog m)) then OutB (has_kind k f) else OutAnyB.
 
 Definition query (m : mspec) (o : mop) : mspec * mout :=
   match o with
